@@ -150,6 +150,8 @@ def pstmt(st):
         return 'DIM %s(%d)' % (st[1], st[2])
     if k == 'fault' or k == 'fncall':
         return st[1]
+    if k == 'nop':
+        return st[1]
     if k == 'rem':
         # last statement of a line: the rest of the line is a remark
         return ("' " if len(st) > 2 and st[2] == "'" else 'REM ') + st[1]
@@ -252,6 +254,31 @@ def pstmt_safe(st):
 # ---------------------------------------------------------------------------------------------------
 # C19: structured control flow
 
+# Statements without visible effect (scratch variables X9, X9$, X9%, X9#): every function with a two-byte token
+# (FF / FE / FD prefix), numeric constants whose stored bytes look like tokens (139 = IF, 143 = REM, 161 = ELSE,
+# 58 = ':', 34 = '"', 0 = end of line), string literals holding ':' / keywords / quotes. They are put where code is
+# SKIPPED (false IF branches, zero-trip FOR, false WHILE, lines the DATA scan crosses): a scanner must step over them.
+SAFE_NOPS = [
+    'X9=EXP(1)', 'X9=FRE(0)', 'X9$=HEX$(255)', 'X9%=CVI("ab")', 'X9=CVS("abcd")', 'X9#=CVD("abcdefgh")', 'X9$=MKI$(5)',
+    'X9$=MKS$(1)', 'X9$=MKD$(1)', 'X9$=OCT$(8)', 'X9=LOG(2)', 'X9=SIN(1)+COS(1)+TAN(1)+ATN(1)',
+    'X9=SGN(-2)+INT(2.5)+ABS(-1)+SQR(4)+FIX(1.5)', 'X9=CINT(1.2)+CSNG(1)+CDBL(2)',
+    'X9$=LEFT$("ab",1)+RIGHT$("ab",1)+MID$("abc",2,1)', 'X9=LEN("a")+ASC("a")+VAL("1")', 'X9$=STR$(1)+CHR$(65)+SPACE$(2)',
+    'X9=POS(0)+LPOS(0)', 'X9=PEEK(0)', 'X9=INP(0)', 'X9=PEN(0)', 'X9=STICK(0)', 'X9=STRIG(0)', 'X9$=DATE$', 'X9$=TIME$',
+    'X9=TIMER', 'X9$=ENVIRON$("PATH")', 'LSET X9$="a"', 'RSET X9$="b"', 'X9=CSRLIN', 'X9$=INKEY$', 'X9=VARPTR(X9)',
+    'X9$=STRING$(2,65)', 'X9=INSTR("ab","b")', 'X9=SCREEN(1,1)', 'X9=PLAY(0)', 'X9=RND',
+    'X9%=139', 'X9%=143', 'X9%=161', 'X9%=58', 'X9%=34', 'X9%=0', 'X9%=14987', 'X9%=8763', 'X9%=-29894', 'X9=41216', 'X9=35723',
+    'X9=&H8B', 'X9=&H3A8F', 'X9=&O213', 'X9=1.5E+20', 'X9#=139.143161#',
+    'X9$="a:b ELSE c"', 'X9$=":"+CHR$(34)+"THEN"', 'X9$="IF:NEXT:WEND:DATA 1,2"',
+]
+# only for regions that are never executed
+DEAD_NOPS = [
+    'PAINT (1,1)', 'CIRCLE (5,5),3', 'DRAW "U1"', 'PLAY "C"', 'KILL "X9.TMP"', 'FILES', 'NAME "A" AS "B"', 'FIELD #1,2 AS X9$',
+    'PUT #1', 'GET #1', 'CHAIN "X9"', 'COMMON X9', 'VIEW (1,1)-(2,2)', 'WINDOW (0,0)-(1,1)', 'PALETTE 1,2', 'PCOPY 0,1',
+    'LOCK #1', 'UNLOCK #1', 'IOCTL #1,"a"', 'CHDIR "X"', 'MKDIR "X"', 'RMDIR "X"', 'ENVIRON "A=B"', 'RESET', 'LCOPY',
+    'DATE$="01-01-2000"', 'TIME$="00:00"', 'X9=USR(0)', 'X9$=INPUT$(0)', 'X9=ERDEV', 'X9$=ERDEV$', 'X9=EXTERR(0)', 'X9=POINT(0)',
+    'X9=PMAP(1,0)', 'ERROR 139', 'X9=EOF(1)+LOC(1)+LOF(1)', 'TIMER ON', 'COM(1) ON', 'X9$=IOCTL$(1)', 'SHELL "x"', 'GOTO 143',
+]
+
 INT_LETTERS = 'IJLMNPR'
 SNG_LETTERS = 'XYZUVST'
 
@@ -324,6 +351,11 @@ class _C19(object):
         self.trace(out, ctx)
         n = r.choice([0, 0, 1, 1, 2])
         for _ in range(n):
+            k = r.random()
+            if k < 0.25:
+                out.append(['nop', r.choice(SAFE_NOPS)])
+                self.feat('nop_in_if_branch')
+                continue
             k = r.random()
             if k < 0.3 and ctx.get('glob'):
                 g = r.choice(ctx['glob'])
@@ -690,6 +722,37 @@ class _C19(object):
         self.trace(out, ctx, [w])
         self.feat('while')
 
+    def gen_dead(self, out, ctx):
+        """A region that is never executed, holding statements a scanner has to step over."""
+        r = self.rng
+        dead = []
+        for _ in range(r.randint(1, 3)):
+            dead.append(['nop', r.choice(DEAD_NOPS + SAFE_NOPS), 'dead'])
+        if r.random() < 0.5:
+            dead.insert(r.randint(0, len(dead)), ['print', 'dead', []])
+        form = r.choice(['if_then', 'if_else', 'for', 'while'])
+        self.feat('dead_region_' + form)
+        if form == 'if_then':
+            live = self.simple(ctx, allow_jump=False) if r.random() < 0.7 else None
+            out.append(['if', ['=', 1, 0], dead, live, ''])
+        elif form == 'if_else':
+            out.append(['if', ['=', 1, 1], self.simple(ctx, allow_jump=False), dead, ''])
+        elif form == 'for':
+            names = [v for v in counter_names(ctx['routine'], False) if v not in ctx['used']]
+            if not names:
+                return
+            self.nloop += 1
+            a, b, st = r.choice([(1, 0, None), (2, 1, 1), (0, 5, -1), (-3, -2, -2), (32767, 1, None)])
+            out.append(['for', names[-1], a, b, st, self.nloop])
+            out.extend(dead)
+            out.append(['next', [self.nloop], [r.choice([None, names[-1]])]])
+        else:
+            self.nloop += 1
+            out.append(['while', r.choice([['=', 1, 0], 0, ['<', 2, 1]]), self.nloop])
+            out.extend(dead)
+            out.append(['wend', self.nloop])
+        self.est += 2 * ctx['mult']
+
     def gen_block(self, out, ctx, depth, top):
         """A block: statements of one nesting level. ctx['pending'] collects forward labels to place."""
         r = self.rng
@@ -708,6 +771,11 @@ class _C19(object):
                     out.append(('label', p[1]))
                     ctx['pending'].remove(p)
             self.trace(out, ctx)
+            if r.random() < 0.15:
+                out.append(['nop', r.choice(SAFE_NOPS)])
+                self.feat('nop_in_block')
+            if r.random() < 0.1:
+                self.gen_dead(out, ctx)
             if top and self.mismatch_at == (ctx['routine'], i):
                 self.inject_mismatch(out, ctx)
             heavy = self.est < self.budget
@@ -874,7 +942,7 @@ FN_BODIES = [
 ]
 
 
-def _c21_fault(r, feats, armed, control=True, fns=(), stub=None):
+def _c21_fault(r, feats, armed, control=True, fns=(), stub=None, main_top=False):
     """One failing statement; `armed` tells whether a trap is certainly set (1/0 allowed)."""
     if stub is not None and control and r.random() < 0.06:
         # GOTO / GOSUB into handler code: its RESUME is met without an error
@@ -906,8 +974,20 @@ def _c21_fault(r, feats, armed, control=True, fns=(), stub=None):
     if k < 0.6 and armed:
         feats['float_div_zero_trapped'] = feats.get('float_div_zero_trapped', 0) + 1
         return [list(r.choice(FAULTS_SOFT_DIV))]
-    if k < 0.66 and control:
+    if k < 0.68 and control:
         feats['control_fault'] = feats.get('control_fault', 0) + 1
+        if feats.get('_unmatched'):
+            # this program has loops that are opened and never closed (no stray NEXT / WEND anywhere in it, which
+            # the textual scan would pair with them); only at nesting level 0 of the main program or the direct line
+            if not main_top:
+                return [['return']]
+            feats['_lid'] = feats.get('_lid', 5000) + 1
+            if r.random() < 0.5:
+                feats['for_without_next'] = feats.get('for_without_next', 0) + 1
+                a, b = r.choice([(1, 0), (1, 2), (3, 3), (2, 1)])
+                return [['for', 'Q%d%%' % (feats['_lid'] % 10), a, b, r.choice([None, 1, -1]), feats['_lid']]]
+            feats['while_without_wend'] = feats.get('while_without_wend', 0) + 1
+            return [['while', r.choice([['=', 1, 1], ['=', 1, 0], ['<', 'C%', 99]]), feats['_lid']]]
         return [r.choice([['return'], ['next', [None], [None]], ['wend', None]])]
     feats['real_fault'] = feats.get('real_fault', 0) + 1
     return [list(r.choice(FAULTS))]
@@ -928,6 +1008,8 @@ def gen_c21(rng):
         return '%s%d' % (p, ntag[0])
 
     direct_mode = r.random() < 0.15
+    if r.random() < 0.3:
+        feats['_unmatched'] = True
     nh = r.choice([1, 1, 2, 3])
     handlers = [label() for _ in range(nh)]
     nsub = r.choice([0, 1, 1, 2])
@@ -964,7 +1046,7 @@ def gen_c21(rng):
                     feats['gosub_to_faulting_sub'] = feats.get('gosub_to_faulting_sub', 0) + 1
                 elif q < 0.3:
                     # failing statement inside a THEN / ELSE branch
-                    br = [P('b')] + _c21_fault(r, feats, armed, depth == 0, fns, stub) + [P('b')]
+                    br = [P('b')] + _c21_fault(r, feats, armed, depth == 0, fns, stub, where == 'main' and depth == 0) + [P('b')]
                     other = [P('c')] if r.random() < 0.5 else None
                     if r.random() < 0.5:
                         out.append(['if', ['=', 'C%', 'C%'], br, other, ''])
@@ -973,7 +1055,7 @@ def gen_c21(rng):
                     feats['fault_in_if_branch'] = feats.get('fault_in_if_branch', 0) + 1
                     return out
                 else:
-                    out.extend(_c21_fault(r, feats, armed, depth == 0, fns, stub))
+                    out.extend(_c21_fault(r, feats, armed, depth == 0, fns, stub, where == 'main' and depth == 0))
             else:
                 out.append(P(where[0]))
         return out
@@ -1081,7 +1163,7 @@ def gen_c21(rng):
             # re-executes for ever when the fault cannot go away: ends by the step budget
             items.append(['resume', r.choice([None, 0])])
             form = 'same_unbounded'
-        elif k < 0.985:
+        elif k < 0.988:
             # no RESUME: runs on into the next handler, or off the end of the program (No RESUME)
             items.append(P('n'))
             form = 'without_resume'
@@ -1105,7 +1187,7 @@ def gen_c21(rng):
         pos = r.randint(0, n - 1)
         for i in range(n):
             if i == pos:
-                f = _c21_fault(r, feats, darmed, True, fns)
+                f = _c21_fault(r, feats, darmed, True, fns, None, True)
                 # (no control-flow faults from the direct line: the stack of a previous run is not pinned)
                 direct.extend(f)
             else:
@@ -1117,6 +1199,9 @@ def gen_c21(rng):
     prog['sep'] = r.choice([':', ':', ':', ' :', ': ', ' : ', '  :  '])
     if prog['sep'] != ':':
         feats['blanks_around_colons'] = 1
+    if feats.pop('_unmatched', None):
+        feats['program_with_unclosed_loops'] = 1
+    feats.pop('_lid', None)
     prog['features'] = feats
     return prog
 
@@ -1201,13 +1286,25 @@ def gen_c22(rng):
         n += r.choice([1, 5, 10, 10, 10, 37])
     kinds = []
     for i in range(nlines):
-        kinds.append(r.choice(['data', 'data', 'data', 'mixed', 'mixed', 'read', 'read', 'read', 'restore', 'restore', 'loop', 'print']))
+        kinds.append(r.choice(['data', 'data', 'data', 'mixed', 'mixed', 'read', 'read', 'read', 'restore', 'restore', 'loop', 'print',
+                               'idata', 'dep']))
     if 'data' not in kinds and 'mixed' not in kinds:
         kinds[r.randrange(nlines)] = 'data'
+    if 'dep' in kinds and 'idata' not in kinds:
+        kinds[kinds.index('dep')] = 'idata'
     # DATA first: decide the items of every data-bearing line
     data = {}
     open_data = set()
+    idata = []
     for i, k in enumerate(kinds):
+        if k == 'idata':
+            # small integers, usable as subscripts by READ N%,C%(N%)
+            items = []
+            for _ in range(r.randint(3, 5)):
+                v = r.randint(0, 5)
+                items.append(['%d' % v, '%d' % v, v])
+            data[i] = items
+            idata.append(i)
         if k in ('data', 'mixed'):
             cnt = r.choice([1, 1, 2, 3, 5]) if k == 'data' else r.choice([1, 2])
             items = [_c22_item(r) for _ in range(cnt)]
@@ -1291,7 +1388,27 @@ def gen_c22(rng):
         stmts = []
         if i == 0:
             stmts.extend(head)
-        if k == 'data':
+        if k == 'dep' and not ended and idata:
+            # later targets of the list use what earlier targets of the SAME list have just received
+            j = r.choice(idata)
+            stmts.append(['restore', nums[j]])
+            ptr = [q for q, (li, it) in enumerate(order) if li == j][0]
+            form = r.choice(['two', 'chain', 'twice']) if len(data[j]) >= 4 else r.choice(['two', 'chain'])
+            if form == 'two':
+                targets = ['N%', ['arr', 'C%', 'N%']]
+            elif form == 'chain':
+                targets = ['N%', ['arr', 'C%', 'N%'], ['arr', 'F', ['arr', 'C%', 'N%']]]
+            else:
+                targets = ['N%', ['arr', 'C%', 'N%'], 'N%', ['arr', 'C%', 'N%']]
+            ptr += len(targets)
+            stmts.append(['read', targets])
+            stmts.append(['print', tag('d'), ['N%'] + [['arr', 'C%', q] for q in range(6)]])
+            if form == 'chain':
+                stmts.append(['print', tag('e'), [['arr', 'F', q] for q in range(6)]])
+            feats['read_with_dependent_subscripts'] = feats.get('read_with_dependent_subscripts', 0) + 1
+        elif k == 'dep':
+            stmts.append(['print', tag('p'), []])
+        elif k in ('data', 'idata'):
             stmts.append(['data', data[i]])
             if i in second:
                 stmts.append(['print', tag('p'), []])
@@ -1366,6 +1483,10 @@ def gen_c22(rng):
                 if j not in data:
                     feats['restore_to_line_without_data'] = feats.get('restore_to_line_without_data', 0) + 1
             stmts.append(['print', tag('p'), []])
+        # statements a DATA scan has to step over (two-byte tokens, constants and literals that look like tokens)
+        if i > 0 and r.random() < 0.12:
+            stmts.insert(0, ['nop', r.choice(SAFE_NOPS)])
+            feats['nop_before_data_scan'] = feats.get('nop_before_data_scan', 0) + 1
         # decoys: the word DATA in a remark or inside a string literal is not a DATA statement
         decoy = False
         if i > 0 and r.random() < 0.1:
@@ -1394,7 +1515,9 @@ def gen_c22(rng):
     lines.append([tailnum, [['end']]])
     tailnum += 10
     if tail_data is not None:
-        lines.append([tailnum, [['data', tail_data]]])
+        # (behind END: never executed, only scanned)
+        pre = [['nop', r.choice(DEAD_NOPS + SAFE_NOPS), 'dead']] if r.random() < 0.5 else []
+        lines.append([tailnum, pre + [['data', tail_data]]])
     if trap:
         h = [['print', tag('h'), [['err'], ['erl']]]]
         if trap_form == 'end':
